@@ -1,4 +1,5 @@
 import TrionModel.Lemmas.Scope
+import TrionModel.Lemmas.ScopePanic
 /-!
 # C14 — constant visibility follows file scope
 
@@ -184,6 +185,66 @@ theorem monotone_run (i : Nat) : ∀ (ops : List Op) {s s' : State}, Open s → 
       have ht1 : (tables s1).reverse[i]? = some ((tables s1).reverse[i]'hlen) := List.getElem?_eq_getElem hlen
       have hv1 := monotone (fun hf => ho.locals.2 hf) hs i t _ ht ht1 n v hv
       exact monotone_run i ops (open_step ho hs) hr ha.2 _ t' ht1 ht' n v hv1
+
+/-! ## panic freedom — no `no local scope`, `unwrap`, `assert!`, `unreachable!` from `Context::new()`
+
+`Inv s` (`Lemmas/ScopePanic.lean`) is the reachable-state invariant: `Open s`; `local_tasks` is `Some` exactly while a
+file is open and each `PathFrame` saved a task list exactly when it has an outer frame; `path_stack.len()` is the number
+of live frames and frame number `k` carries `count = k`; no table on the stack has a register name as key; every
+`.global` closure in any task list captured a non-register name; and the real global task list (the bottom of the stack
+of task lists) holds only `.du32`s rescheduled with `Realm::Global`. -/
+
+/-- C14.panic_free (invariant)  Every state reachable from `Context::new()` over any op history satisfies `Inv`. -/
+theorem reachable_inv {ops : List Op} {s : State} (h : run init ops = .ok s) : Inv s := by
+  obtain ⟨s', h', i'⟩ := run_ok ops inv_init
+  rw [h] at h'; cases h'; exact i'
+
+/-- C14.panic_free (one step)  From a state satisfying the invariant no op reaches a panic site: `step` never returns
+`no local scope` / `unwrap` / `assert!` / `unreachable!` nor the model's own loop bound, and the invariant holds again. -/
+theorem panic_free_step {s : State} (hi : Inv s) (op : Op) : ∃ s', step s op = .ok s' ∧ Inv s' :=
+  step_ok op hi
+
+/-- C14.panic_free  Over ANY operation history from `Context::new()` — well bracketed or not, with `finalize` anywhere,
+with failed files, with tasks rescheduled through several includers — the model never takes one of its panic outcomes:
+not `panic!("no local scope")` of `get_constant`/`insert_constant`/`defer_constant`/`add_task`, not an `unwrap`
+(`.global`'s `insert_constant(..).unwrap()` / `defer_constant(..).unwrap()`, `local_tasks.replace(..).unwrap()`,
+`local_tasks.as_mut().unwrap()`, `path_stack.pop().unwrap()`), not an `assert!` (`.global`'s `assert!(!inserted)`,
+`assert_eq!(path_stack.len(), count)` of `into_inner`), not an `unreachable!` (the `Reserved` arms of `.import`, `.export`
+and the `.global` closure), and not the loop bound `Panic.fuel` of the model's `while !tasks.is_empty()` loops (2 rounds
+for `assemble`, 3 for `finalize`). -/
+theorem panic_free (ops : List Op) : ∃ s, run init ops = .ok s :=
+  let ⟨s, h, _⟩ := run_ok ops inv_init
+  ⟨s, h⟩
+
+theorem panic_free_ne (ops : List Op) (p : Panic) : run init ops ≠ .error p := by
+  obtain ⟨s, h⟩ := panic_free ops
+  rw [h]; intro e; cases e
+
+/-- the guards of the individual panic sites, read off `Inv`: inside a file both `locals` and `local_tasks` are there;
+`into_inner` finds `path_stack.len() == count ≥ 1`; a name found in a visible table is not a register name -/
+theorem panic_guards {ops : List Op} {s : State} (h : run init ops = .ok s) :
+    (s.frames ≠ [] → s.locals.isSome ∧ s.localTasks.isSome) ∧
+    (∀ f fs, s.frames = f :: fs → s.depth = f.count ∧ s.depth ≠ 0) ∧
+    (∀ n e, s.globals.find n = some e → isReg n = false) ∧
+    (∀ l n e, s.locals = some l → l.find n = some e → isReg n = false) ∧
+    (s.depth = 0 → ∀ t ∈ s.globalTasks, ∃ n c tag, t = .use n c tag true) := by
+  have i := reachable_inv h
+  refine ⟨fun hf => ⟨(i.inFile hf).locals, (i.inFile hf).ltasks⟩, ?_, ?_, ?_, ?_⟩
+  · intro f fs hf
+    have hfr := i.fr
+    rw [hf] at hfr
+    have hd : s.depth = fs.length + 1 := by rw [i.depth, hf]; rfl
+    exact ⟨by rw [hd, hfr.1], by omega⟩
+  · exact fun n e hf => Table.keysOk_found i.vis.kg hf
+  · exact fun l n e hl hf => Table.keysOk_found (i.vis.kl l hl) hf
+  · intro hd t ht
+    have := i.vis.bot (by rw [← i.depth, hd]; exact Nat.zero_le _) t ht
+    cases t with
+    | globalCopy n tag => exact this.elim
+    | use n c tag g =>
+      cases g with
+      | true => exact ⟨n, c, tag, rfl⟩
+      | false => exact this.elim
 
 /-! ## dup_reserved — the five collision classes are diagnosed and leave every table unchanged -/
 
@@ -584,5 +645,19 @@ example : ∃ s f fs l, run init [.enter 0, .const x 1 1] = .ok s ∧ s.mode = .
      frames := [{ count := 1, constants := none, tasks := none, tag := 0 }], mode := .running, log := [] },
    { count := 1, constants := none, tasks := none, tag := 0 }, [], [(x, some 1)],
    by rfl, rfl, rfl, rfl, by decide, by decide⟩
+
+/-- panic freedom is not vacuous: histories that do reach the guarded sites run through — `.global` before and after
+the value (the `unwrap`/`assert!` pair), a `.global` closure at the end of a file, a failed child, a `.du32` rescheduled
+twice by a `finalize` inside an open file (the loop takes its second round), an unbalanced `exit` -/
+example : (run init [.enter 0, .enter 1, .global x 2, .use x 3, .const x 7 4, .global (bytesOf "y") 5, .exit,
+      .use x 6, .exit, .finalize]).toOption.map (·.log.reverse) =
+    some [.value 3 7 1, .diag 5 .defLocal, .diag 1 .asmFailed, .done false] := by decide
+
+example : (run init [.enter 0, .global x 1, .use x 2, .enter 3, .import x 4, .finalize, .exit, .exit, .exit,
+      .finalize]).toOption.map (·.log.reverse) =
+    some [.diag 1 .defLocal, .diag 2 .nfGlobal, .done false, .done false] := by decide
+
+example : ∃ s, run init [.enter 0, .enter 1, .global x 2, .use x 3, .const x 7 4, .exit, .exit, .exit, .finalize] = .ok s :=
+  panic_free _
 
 end Trion.Scope
